@@ -43,7 +43,7 @@ func c20DecisionTable(c *Check, a *Anchors) {
 	fn := c.P.SSAFunc(fb)
 	c.Fn(fb)
 	name := fnDisplay(fb)
-	pe := &PathEnum{Fn: fn, MaxRevisit: 1, Event: func(in ssa.Instruction) (string, string) {
+	pe := &PathEnum{Fn: fn, MaxRevisit: revisit(), Event: func(in ssa.Instruction) (string, string) {
 		call, ok := in.(*ssa.Call)
 		if !ok {
 			return "", ""
